@@ -26,6 +26,8 @@ func init() {
 		add("Abs", []int{67}, "float32", nil)
 		add("Abs", []int{4099}, "int32", nil)
 		add("PRelu", []int{4099}, "float32", []int{1})
+		add("PRelu", []int{1000, 3}, "float32", []int{3})
+		add("PRelu", []int{2, 700, 5}, "float32", []int{2, 1, 5})
 		add("Not", []int{4099}, "bool", nil)
 		for _, dt := range []string{"int8", "int16", "int32", "int64", "uint8", "uint16", "uint32", "uint64"} {
 			add("Abs", []int{2}, dt, nil)
